@@ -330,10 +330,15 @@ type VC struct {
 	assumptionsUsed map[string]bool
 	dropQuant bool
 	mu        sync.Mutex
+	defs      map[string]string // defined constant -> its defining term
+	named     map[string]string
+	lineTag   []int             // block tag of each line (-1 = global)
+	curTag    int
+	inline    bool // pure-term mode: no constants, assumptions or obligations are emitted (used to lift closures into quantifiers)
 }
 
 func newVC(p *Prog) *VC {
-	return &VC{prog: p, declared: map[string]bool{}, sorts: map[string]string{}, structs: map[string]*structSort{}, strlits: map[string]string{}, notes: map[string]bool{}, assumptionsUsed: map[string]bool{}}
+	return &VC{curTag: -1, prog: p, declared: map[string]bool{}, sorts: map[string]string{}, structs: map[string]*structSort{}, strlits: map[string]string{}, notes: map[string]bool{}, assumptionsUsed: map[string]bool{}}
 }
 
 func mangle(s string) string {
@@ -462,24 +467,42 @@ func (vc *VC) structInfo(t types.Type) *structSort {
 func (vc *VC) fresh(hint, sort string) string {
 	vc.n++
 	name := fmt.Sprintf("%s!%d", mangle(hint), vc.n)
-	vc.lines = append(vc.lines, fmt.Sprintf("(declare-const %s %s)", name, sort))
+	vc.addLine(fmt.Sprintf("(declare-const %s %s)", name, sort))
 	return name
 }
 
 func (vc *VC) assume(f string) {
-	if f == "true" {
+	if f == "true" || vc.inline {
 		return
 	}
-	vc.lines = append(vc.lines, "(assert "+f+")")
+	vc.addLine("(assert " + f + ")")
+}
+
+func (vc *VC) addLine(l string) {
+	vc.lines = append(vc.lines, l)
+	vc.lineTag = append(vc.lineTag, vc.curTag)
+}
+
+// prependGlobal inserts a global line at position pos.
+func (vc *VC) insertGlobal(pos int, l string) {
+	vc.lines = append(vc.lines[:pos], append([]string{l}, vc.lines[pos:]...)...)
+	vc.lineTag = append(vc.lineTag[:pos], append([]int{-1}, vc.lineTag[pos:]...)...)
 }
 
 // define introduces a named constant equal to term (keeps terms small).
 func (vc *VC) define(hint, sort, term string) string {
+	if vc.inline {
+		return term
+	}
 	if len(term) < 48 && !strings.Contains(term, "(let ") {
 		return term
 	}
 	c := vc.fresh(hint, sort)
 	vc.assume(eq(c, term))
+	if vc.defs == nil {
+		vc.defs = map[string]string{}
+	}
+	vc.defs[c] = term
 	return c
 }
 
@@ -515,9 +538,13 @@ const prelude = `(set-option :produce-models true)
 (declare-sort Fn 0)
 (declare-sort GoTuple 0)
 (declare-datatypes ((Slice 0)) (((mk_slice (sptr Int) (soff Int) (slen Int)))))
+(declare-fun idx (Int Int) Int)
+(assert (forall ((o Int) (j Int)) (! (= (idx o j) (+ o j)) :pattern ((idx o j)))))
 (declare-fun str_len (Str) Int)
 (declare-fun str_cat (Str Str) Str)
 (declare-fun str_lt (Str Str) Bool)
+(assert (forall ((a Str) (b Str)) (! (and (not (and (str_lt a b) (str_lt b a))) (or (str_lt a b) (str_lt b a) (= a b))) :pattern ((str_lt a b)))))
+(assert (forall ((a Str) (b Str) (c Str)) (! (=> (and (str_lt a b) (str_lt b c)) (str_lt a c)) :pattern ((str_lt a b) (str_lt b c)))))
 (declare-const iface_nil Iface)
 (declare-fun typeof (Iface) Int)
 (assert (= (typeof iface_nil) 0))
@@ -527,6 +554,8 @@ const prelude = `(set-option :produce-models true)
 (define-fun imin ((a Int) (b Int)) Int (ite (<= a b) a b))
 (define-fun imax ((a Int) (b Int)) Int (ite (>= a b) a b))
 (define-fun round_he ((x Int)) Int (let ((a (iabs x))) (let ((q (div a 1000000000000000000)) (r (mod a 1000000000000000000))) (let ((u (ite (or (> r 500000000000000000) (and (= r 500000000000000000) (= (mod q 2) 1))) (+ q 1) q))) (ite (< x 0) (- u) u)))))
+(define-fun is_round_he ((x Int) (q Int)) Bool (let ((d (- (* 1000000000000000000 q) x))) (and (<= (- 500000000000000000) d) (<= d 500000000000000000) (=> (or (= d 500000000000000000) (= d (- 500000000000000000))) (= (mod q 2) 0)))))
+(define-fun is_tdiv ((a Int) (b Int) (x Int)) Bool (ite (> b 0) (ite (>= a 0) (and (<= (* b x) a) (< a (* b (+ x 1)))) (and (< (* b (- x 1)) a) (<= a (* b x)))) (ite (>= a 0) (and (<= (* (- b) (- x)) a) (< a (* (- b) (+ (- x) 1)))) (and (<= (* (- b) x) (- a)) (< (- a) (* (- b) (+ x 1)))))))
 (define-fun dec_mul ((a Int) (b Int)) Int (round_he (* a b)))
 (define-fun dec_quo ((a Int) (b Int)) Int (round_he (tdiv (* a 1000000000000000000000000000000000000) b)))
 (define-fun dec_quo_trunc ((a Int) (b Int)) Int (tdiv (tdiv (* a 1000000000000000000000000000000000000) b) 1000000000000000000))
@@ -535,21 +564,21 @@ const prelude = `(set-option :produce-models true)
 `
 
 // render produces the full SMT-LIB text for an obligation.
-func (vc *VC) renderNoQuant(prefix int, goal string, extra []string) string {
+func (vc *VC) renderNoQuant(prefix int, goal string, extra []string, tags map[int]bool) string {
 	vc.mu.Lock()
 	defer vc.mu.Unlock()
 	vc.dropQuant = true
 	defer func() { vc.dropQuant = false }()
-	return vc.renderL(prefix, goal, extra)
+	return vc.renderL(prefix, goal, extra, tags)
 }
 
-func (vc *VC) render(prefix int, goal string, extra []string) string {
+func (vc *VC) render(prefix int, goal string, extra []string, tags map[int]bool) string {
 	vc.mu.Lock()
 	defer vc.mu.Unlock()
-	return vc.renderL(prefix, goal, extra)
+	return vc.renderL(prefix, goal, extra, tags)
 }
 
-func (vc *VC) renderL(prefix int, goal string, extra []string) string {
+func (vc *VC) renderL(prefix int, goal string, extra []string, tags map[int]bool) string {
 	var b strings.Builder
 	b.WriteString(prelude)
 	if len(vc.strorder) > 0 {
@@ -572,7 +601,10 @@ func (vc *VC) renderL(prefix int, goal string, extra []string) string {
 		b.WriteString(l)
 		b.WriteByte('\n')
 	}
-	for _, l := range vc.lines[:prefix] {
+	for i, l := range vc.lines[:prefix] {
+		if tags != nil && vc.lineTag[i] >= 0 && !tags[vc.lineTag[i]] {
+			continue
+		}
 		if vc.dropQuant && (strings.Contains(l, "(forall ") || strings.Contains(l, "(exists ")) {
 			continue
 		}
@@ -606,4 +638,26 @@ func (vc *VC) keySort(t types.Type) string {
 		return sn
 	}
 	return vc.sortOf(t)
+}
+
+// defineAlways names a term with a constant (reusing an earlier name for the same term under the same tag).
+func (vc *VC) defineAlways(hint, sort, term string) string {
+	if vc.inline {
+		return term
+	}
+	if vc.named == nil {
+		vc.named = map[string]string{}
+	}
+	key := fmt.Sprintf("%d|%s", vc.curTag, term)
+	if c, ok := vc.named[key]; ok {
+		return c
+	}
+	c := vc.fresh(hint, sort)
+	vc.assume(eq(c, term))
+	if vc.defs == nil {
+		vc.defs = map[string]string{}
+	}
+	vc.defs[c] = term
+	vc.named[key] = c
+	return c
 }
